@@ -191,11 +191,17 @@ make_bits (img_t *im, pixman_format_code_t fmt, int w, int h, int pad_words, vrn
     for (i = 0; i < n; i++)
     {
 	uint32_t v = (uint32_t)vrng_next (rng);
-	switch (vrng_below (rng, 6))
+	/* value classes that matter to special-cased pixels: zero, all ones, opaque, alpha 0 with colour
+	 * (a non-premultiplied source), alpha 1 / 254, and plain random words */
+	switch (vrng_below (rng, 10))
 	{
 	case 0: v = 0; break;
 	case 1: v = 0xffffffff; break;
 	case 2: v |= 0xff000000; break;
+	case 3: v &= 0x00ffffff; break;
+	case 4: v = (v & 0x00ffffff) | 0x01000000; break;
+	case 5: v = (v & 0x00ffffff) | 0xfe000000; break;
+	case 6: v &= 0xff000000; break;
 	default: break;
 	}
 	if (opaque)
